@@ -162,6 +162,20 @@ func (vc *VC) valEq(a, b *Val) string {
 		}
 	case KFunc, KMap, KChan:
 		return sEq(a.C[0], b.C[0])
+	case KIface:
+		if b.C[0] == "0" {
+			return vc.isNil(a)
+		}
+		if a.C[0] == "0" {
+			return vc.isNil(b)
+		}
+	case KPtr:
+		if b.C[0] == "0" {
+			return vc.isNil(a)
+		}
+		if a.C[0] == "0" {
+			return vc.isNil(b)
+		}
 	}
 	var cs []string
 	for i := range a.C {
